@@ -6,7 +6,7 @@
 use serde::{Deserialize, Serialize};
 use serde_json::Value;
 
-use crate::oracle::Violation;
+use crate::violation::Violation;
 
 #[derive(Clone, Debug, Serialize, Deserialize)]
 pub struct Signature {
